@@ -147,6 +147,12 @@ pub fn c09_c10(d: &Digest, s: usize, out: &mut Vec<Violation>) {
                 break;
             }
         }
+        // nothing is delivered after stop() returned
+        if let Some(xr) = xret {
+            if let Some(late) = log.iter().find(|x| x.4 > xr) {
+                v(out, "C10", "delivered-after-stop", format!("store {s}: channeled subscriber {sub} was still being notified (action {}) after stop() had returned", late.0));
+            }
+        }
         if let Some(r) = ref_stream(d, s) {
             // in-order (sub)sequence of the stream, with the right states
             let mut ri = 0;
